@@ -2,6 +2,7 @@ package main
 
 import (
 	"fmt"
+	"sort"
 	"strings"
 
 	"golang.org/x/tools/go/ssa"
@@ -354,7 +355,64 @@ func runC19(c *Ctx) {
 			c.obI("R19.2", st, "scheme-list-fresh-per-alternative", okF, "each alternative's Schemes list is built on a slice allocated inside that alternative's iteration (alternatives never share backing storage, so an earlier alternative's scheme names cannot be overwritten by a later one's)", "the scheme list is built on storage that outlives the iteration (hoisted / re-sliced buffer)")
 		}
 	}
-	c.min("R19.2", 20)
+	// the request-time tables of a route are built from the route's own final lists (consumers from consumes, producers from produces)
+	ruleAddRouteDefaults(c, "R19.2", "Consume")
+	ruleAddRouteDefaults(c, "R19.2", "Produce")
+	// sibling agreement: WithoutJSONDefaults undoes exactly what WithJSONDefaults does (a default media type left behind
+	// without its registration is offered by every route and has no producer at request time)
+	{
+		with := p.Fn("(*rt/middleware/untyped.API).WithJSONDefaults")
+		without := p.Fn("(*rt/middleware/untyped.API).WithoutJSONDefaults")
+		set, cleared := map[string]bool{}, map[string]bool{}
+		for _, in := range instrs(with) {
+			switch x := in.(type) {
+			case *ssa.Store:
+				if _, _, immT, field := chainRoot(x.Addr); immT != nil && typeFullName(immT) == apiT {
+					set["field "+field] = true
+				}
+			case *ssa.MapUpdate:
+				for _, o := range originsOf(x.Map) {
+					if ad, ok := derefLoad(o.V); ok {
+						if _, _, immT, field := chainRoot(ad); immT != nil && typeFullName(immT) == apiT {
+							k, _ := constString(x.Key)
+							set["table "+field+"["+k+"]"] = true
+						}
+					}
+				}
+			}
+		}
+		for _, in := range instrs(without) {
+			switch x := in.(type) {
+			case *ssa.Store:
+				if _, _, immT, field := chainRoot(x.Addr); immT != nil && typeFullName(immT) == apiT {
+					if k, isK := constString(x.Val); isK && k == "" {
+						cleared["field "+field] = true
+					}
+				}
+			case *ssa.Call:
+				if calleeName(&x.Call) == "builtin delete" {
+					for _, o := range originsOf(x.Call.Args[0]) {
+						if ad, ok := derefLoad(o.V); ok {
+							if _, _, immT, field := chainRoot(ad); immT != nil && typeFullName(immT) == apiT {
+								k, _ := constString(x.Call.Args[1])
+								cleared["table "+field+"["+k+"]"] = true
+							}
+						}
+					}
+				}
+			}
+		}
+		var keys []string
+		for k := range set {
+			keys = append(keys, k)
+		}
+		sort.Strings(keys)
+		for _, k := range keys {
+			c.obF("R19.2", without, "undoes-"+k, cleared[k], "WithoutJSONDefaults clears every default and registration WithJSONDefaults installs ("+k+")", "WithJSONDefaults sets "+k+" but WithoutJSONDefaults leaves it")
+		}
+		c.obF("R19.2", with, "json-defaults-set", len(keys) == 4, "WithJSONDefaults installs two default media types and two registrations", fmt.Sprintf("%d", len(keys)))
+	}
+	c.min("R19.2", 30)
 
 	// R19.3 request-time failure sites
 	entries := c09Entries(c)
